@@ -6,7 +6,7 @@ import json, os, sys
 OUT = sys.argv[1] if len(sys.argv) > 1 else '/tmp/ben'
 T = """You are helping test a verification effort by playing the role of a maintainer who makes a BEHAVIOUR-PRESERVING refactor / optimisation / clean-up of a Rust library. The goal is to find out whether an automated checker raises FALSE ALARMS on correct code, so your change must keep the library correct.
 
-The library is tari-project/bulletproofs-plus (Bulletproofs+ range proofs over Ristretto). You have your OWN scratch git worktree of it at @OUT@/@ID@ (detached HEAD of the pinned commit). Work ONLY inside @OUT@/@ID@ and write your deliverables to @OUT@/@ID@.out/. Do NOT touch /repo or /verif and do not read anything under /verif. The sandbox is offline: always build with `cargo ... --offline` (all dependencies are in the cargo cache).
+The library is tari-project/bulletproofs-plus (Bulletproofs+ range proofs over Ristretto). You have your OWN scratch git worktree of it at @OUT@/@ID@ (detached HEAD of the pinned commit). Work ONLY inside @OUT@/@ID@ and write your deliverables to @OUT@/@ID@.out/. Do NOT touch /repo or /verif and do not read anything under /verif. Do NOT use `git stash` (the stash is shared between all worktrees of the repository, other people are working in sibling worktrees): to set work aside, save it with `git diff > file` and restore with `git apply`. The sandbox is offline: always build with `cargo ... --offline` (all dependencies are in the cargo cache).
 
 The library satisfies this semantic property, and must STILL satisfy it after your change:
 
